@@ -628,6 +628,9 @@ func (vc *VC) envFor(fr *Frame, st *State) *Env {
 	if fr.callPre != nil {
 		e.loopAt["call"] = fr.callPre
 	}
+	for i, a := range fr.pendingArgs {
+		e.hash[fmt.Sprintf("arg%d", i)] = a
+	}
 	return e
 }
 
